@@ -741,6 +741,14 @@ def rule_whole_file_writes(ctx, rep: Report, rid="R6", min_sites=3):
                             "each output must be written by one write() of a completely built text right "
                             "after its open(): text generated while the file is open can fail half-way and "
                             "leave a truncated file", f"{mi.rel}:{w.lineno}")
+                    mode = c.args[1] if len(c.args) > 1 else next((k.value for k in c.keywords if k.arg == "mode"), None)
+                    if (dotted(c.func) or "") in ("open", "io.open", "codecs.open") or (isinstance(c.func, ast.Attribute) and c.func.attr == "open"):
+                        mv = mode.value if isinstance(mode, ast.Constant) else None
+                        rep.add(rid, f"truncating-open:{fid.qual}:{unparse(c.args[0])[:40] if c.args else ''}",
+                                isinstance(mv, str) and mv.replace("b", "").replace("t", "") in ("w", "x"),
+                                f"opened with mode {unparse(mode) if mode is not None else None}: only 'w'/'x' start from an empty file; "
+                                "'r+' / 'a' keep what an earlier run left in a file of the same name, so the output depends on the "
+                                "previous content of the build directory", f"{mi.rel}:{w.lineno}")
     if n < min_sites:
         raise AnalysisError(f"{rep.prop}/{rid}: {n} open-for-write sites found, {min_sites} expected")
 
